@@ -274,6 +274,8 @@ class ImplRun:
         self.nested_into = {}     # circuit index -> set of circuit indices it was (transitively) nested into
         self.meas_reg = {}        # id(measurement original) -> circuit index of its registry
         self.shadow_broken = False
+        self.twins = {}           # circuit index -> earlier wrapper objects around the SAME structure (apply_modifiers() and
+                                  # flatten() return a new DeclarativeCircuit sharing the structure modified in place)
 
     def close(self):
         if self.in_override and self.ctx is not None:
@@ -380,7 +382,15 @@ class ImplRun:
         self.last_ops = ops
         if self.clear_cache:
             clear_caches()
-        return ';'.join(rows) + f' # {to_units(circ.duration)}'
+        ans = ';'.join(rows) + f' # {to_units(circ.duration)}'
+        # the wrappers a caller still holds from before apply_modifiers()/flatten() describe the same circuit: what they list
+        # is part of the observation (on the unchanged code they cannot differ — one shared structure, nothing kept per wrapper)
+        for j, old in enumerate(self.twins.get(c, [])):
+            rows2 = [show_op(o) for o in old.operations]
+            ans2 = ';'.join(rows2) + f' # {to_units(old.duration)}'
+            if ans2 != ans:
+                ans += f' !earlier-wrapper{j}: {ans2}'
+        return ans
 
     def step(self, cmd):
         """Returns the observer answer (str) or None."""
@@ -452,10 +462,12 @@ class ImplRun:
             if self.clear_cache:
                 clear_caches()
             self.shadow[cmd[1]] = self.shadow_unroll(self.shadow[cmd[1]])
+            self.twins.setdefault(cmd[1], []).append(self.circs[cmd[1]])
             self.circs[cmd[1]] = self.circs[cmd[1]].apply_modifiers()
         elif k == 'flatten':
             if self.clear_cache:
                 clear_caches()
+            self.twins.setdefault(cmd[1], []).append(self.circs[cmd[1]])
             self.circs[cmd[1]] = self.circs[cmd[1]].flatten()
             sh = self.shadow[cmd[1]]
             self.shadow[cmd[1]] = {'rep': sh['rep'], 'items': list(shadow_leaves(sh))}
